@@ -4,7 +4,7 @@
 P=$1; K=$2; shift 2; CHECKS=${@:-$P}
 WT=/tmp/seed/$P/wt; OUT=/tmp/seed/$P/out/$K
 cd $WT || exit 2
-git checkout -q -- . 
+git checkout -q -- . ; git checkout -q --detach main
 echo "== demo on clean tree"; PYTHONPATH=$WT NUMBA_CACHE_DIR=$WT/.numba_cache /venv/bin/python -W ignore $OUT/demo.py 2>&1 | tail -3; echo "exit=$?"
 git apply $OUT/patch.diff || { echo "PATCH DOES NOT APPLY"; exit 2; }
 git diff --stat | tail -2
